@@ -241,6 +241,7 @@ func genC02(w *World, res *CheckResult) {
 	genConstRange(w, res)
 	verifyInit(w, res, "optimizer")
 	genPipelineOrder(w, res)
+	genRewritesThroughPatch(w, res)
 	res.Assumptions = append(res.Assumptions,
 		"scope of this check: the constant-folding rewrite of binary arithmetic on two integer literals carrying the same static type (the checker retypes all literals of an argument together); the in-range rewrite (shape, type guard, single evaluation of the left operand); array folding, in-array, constant ranges and constant-expression calls are not under contract yet (see DESIGN.md)",
 		"math.Pow is an uninterpreted function applied to identical arguments on both sides")
